@@ -106,4 +106,12 @@ theorem baseline_returns {B N : Heap} (hG : WF (B ++ N)) (hc : Clean (B ++ N))
   have hB : B.Nodup := (WF.sublist (List.sublist_append_left B N) hG).nodup
   exact ((List.perm_ext_iff_of_nodup (collect_wf hG hc).nodup hB).mpr hmem).length_eq
 
+/-- Example heap for the non-vacuity checks in `RsjProps/C03.lean`: a live 2-cycle (one outside
+    handle) with a garbage 2-cycle hanging on it. -/
+def exampleHeap : Heap :=
+  [{ id := 0, edges := [1], views := 0, ext := 1, visits := 0, mark := false },
+   { id := 1, edges := [0], views := 0, ext := 0, visits := 0, mark := false },
+   { id := 2, edges := [3], views := 0, ext := 0, visits := 0, mark := false },
+   { id := 3, edges := [2, 0], views := 0, ext := 0, visits := 0, mark := false }]
+
 end Rsj.Gc
